@@ -31,7 +31,7 @@ func (*c15) Rule() string {
 
 func (k *c15) Setup(c *core.Ctx) (int, error) {
 	k.runs = 8
-	return c.N(300, 8000), nil
+	return c.N(1200, 15000), nil
 }
 
 func (*c15) Finish(c *core.Ctx) {
